@@ -206,6 +206,13 @@ def q_c09_frame_decode(bodies):
             v = implied(need)
             if v != "unsat":
                 problems.append(("need-more-data is reported only when fewer than 4 + len bytes are buffered", v, tag))
+                continue
+            if ftxt is not None:
+                # a complete length prefix that announces an oversized frame is an error AT ONCE: answering need-more-data would make
+                # the reader buffer up to 4 GiB and wait for as long as the peer keeps the stream open (C10; round-8 seed r8_c10_a)
+                v = implied("(<= %s %d)" % (ftxt, mx))
+                if v != "unsat":
+                    problems.append(("an oversized length prefix is rejected at once, never answered with need-more-data", v, tag))
             continue
         if ret.startswith("(C_Err"):
             if ftxt is None:
